@@ -608,7 +608,7 @@ def item_reference(item):
             out["lines"]["resolve%d" % (level + 1)] = inj.count
             total += inj.count
             out["levels"].append([digest(coarse), digest(fine)])
-            if item["family"] == "decomp" and item.get("composition") and level < item["n_levels"] - 1:
+            if item["family"] == "decomp" and item.get("composition") and item.get("constructed", True) and level < item["n_levels"] - 1:
                 want = item["levels"][level + 1]
                 names = sorted(fine.nodes[n].get("atomname") for n in fine.nodes)
                 if names != sorted(want["names"]):
@@ -637,7 +637,7 @@ def item_reference(item):
                 out["violations"].append({"oracle": "C06.composition",
                                           "detail": "multi-level result is not isomorphic to the flattened two-level result: " + why})
             expected = graphcmp.expected_skeleton(item["mol"])
-            ok, why = graphcmp.isomorphic(a, expected)
+            ok, why = graphcmp.isomorphic(a, expected) if item.get("constructed", True) else (True, "not compared")
             if not ok:
                 out["violations"].append({"oracle": "C06.composition",
                                           "detail": "multi-level result is not isomorphic to the constructed molecule: " + why})
@@ -705,11 +705,14 @@ def execute(scenario):
     result = {"status": "ok", "violations": [], "stats": {}, "digest": None}
     stats = result["stats"]
     if not sc.get("finalised"):
+        # Admission gates only the oracles that compare with what the *generator* meant (constructed molecule,
+        # per-level names/edges). An item whose pieces the readers understand differently still takes part in
+        # every other oracle - in particular multi-level vs flattened string, which needs no expectation.
         reasons = fork_call(admit_items, (sc["items"],), timeout=120)
-        if any(reasons):
-            result["status"] = "rejected"
-            result["reject_reasons"] = [r for r in reasons if r]
-            return result
+        for item, reason in zip(sc["items"], reasons):
+            if reason:
+                item["constructed"] = False
+                item["admission_mismatch"] = reason[:200]
     refs = sc.get("refs")
     if refs is None:
         refs = [fork_call(item_reference, (item,), timeout=120) for item in sc["items"]]
@@ -826,6 +829,8 @@ def execute(scenario):
     stats["levels"] = max(item["n_levels"] for item in sc["items"])
     for item in sc["items"]:
         stats["levels:%d" % item["n_levels"]] = stats.get("levels:%d" % item["n_levels"], 0) + 1
+        if item.get("admission_mismatch"):
+            stats["admission_mismatch"] = stats.get("admission_mismatch", 0) + 1
         if not item.get("legacy", True):
             stats["items_label_insensitive_convention"] = stats.get("items_label_insensitive_convention", 0) + 1
         if item.get("composition"):
